@@ -281,12 +281,12 @@ func c06(c *Ctx) {
 		readsRadius := func(f *ssa.Function) bool {
 			return f != nil && core.InModule(f) && core.ReachesInstr(f, 2, func(in ssa.Instruction) bool {
 				ci, ok := in.(ssa.CallInstruction)
-				return ok && core.CalleeID(ci) == atomicValLoad && len(ci.Common().Args) > 0 && m.isField(ci.Common().Args[0], m.radFld)
+				return ok && isAtomicCell(core.CalleeID(ci), "Load") && len(ci.Common().Args) > 0 && m.isField(ci.Common().Args[0], m.radFld)
 			})
 		}
 		sites := map[*ssa.Function][]core.LockSite{}
 		core.Calls(m.put, func(ci ssa.CallInstruction) {
-			direct := core.CalleeID(ci) == atomicValLoad && len(ci.Common().Args) > 0 && m.isField(ci.Common().Args[0], m.radFld)
+			direct := isAtomicCell(core.CalleeID(ci), "Load") && len(ci.Common().Args) > 0 && m.isField(ci.Common().Args[0], m.radFld)
 			if direct || readsRadius(core.StaticCalleeFn(ci)) {
 				sites[m.put] = append(sites[m.put], core.LockSite{Instr: ci, What: "radius read for admission"})
 			}
@@ -349,7 +349,7 @@ func c06(c *Ctx) {
 	for _, fn := range p.ModuleFuncs() {
 		perFn := 0
 		core.Calls(fn, func(ci ssa.CallInstruction) {
-			if core.CalleeID(ci) != atomicValStore || !m.isField(ci.Common().Args[0], m.radFld) {
+			if !isAtomicCell(core.CalleeID(ci), "Store") || !m.isField(ci.Common().Args[0], m.radFld) {
 				return
 			}
 			perFn++
@@ -569,7 +569,7 @@ func c17(c *Ctx) {
 	}
 	var maxStore ssa.CallInstruction
 	core.Calls(ctor, func(ci ssa.CallInstruction) {
-		if core.CalleeID(ci) == atomicValStore && m.isField(ci.Common().Args[0], m.radFld) {
+		if isAtomicCell(core.CalleeID(ci), "Store") && m.isField(ci.Common().Args[0], m.radFld) {
 			if core.Derives(ci.Common().Args[1], func(v ssa.Value) bool { g, ok := v.(*ssa.Global); return ok && g.Name() == "MaxDistance" }, core.DeriveOpts{}) {
 				maxStore = ci
 			}
@@ -578,8 +578,39 @@ func c17(c *Ctx) {
 	if firstGet == nil || maxStore == nil {
 		r.Fail("R3.open", core.FuncName(ctor)+" shape", p.Pos(ctor.Pos()), "constructor no longer initialises the radius to the maximum and reads the size record")
 	} else {
-		w := core.MustPassBefore(firstGet, func(in ssa.Instruction) bool { return in == ssa.Instruction(maxStore) })
-		r.Check(w == nil, "R3.open", core.FuncName(ctor)+" radius-max-first", p.Pos(maxStore.Pos()), "the radius is the maximum before anything is read", "the store can be used/read before its radius is initialised: "+p.PathString(w))
+		// the maximum is in place before anything reads or narrows the radius: every call of
+		// prune, every other store to the radius cell and every exit that hands the store out
+		// lies after it (reading the size record first is harmless: that read does not look at
+		// the radius)
+		isMax := func(in ssa.Instruction) bool { return in == ssa.Instruction(maxStore) }
+		var w []*ssa.BasicBlock
+		core.Calls(ctor, func(ci ssa.CallInstruction) {
+			if w != nil || ci == maxStore {
+				return
+			}
+			reads := core.StaticCalleeFn(ci) == m.prune && m.prune != nil
+			if isAtomicCell(core.CalleeID(ci), "Store") && m.isField(ci.Common().Args[0], m.radFld) {
+				reads = true
+			}
+			if isAtomicCell(core.CalleeID(ci), "Load") && m.isField(ci.Common().Args[0], m.radFld) {
+				reads = true
+			}
+			if reads {
+				if in, ok := ci.(ssa.Instruction); ok {
+					w = core.MustPassBefore(in, isMax)
+				}
+			}
+		})
+		if w == nil {
+			for _, ret := range core.Returns(ctor) {
+				if len(ret.Results) > 0 && !core.IsNilConst(core.ResolveSpill(ret.Results[0])) {
+					if w2 := core.MustPassBefore(ret, isMax); w2 != nil {
+						w = w2
+					}
+				}
+			}
+		}
+		r.Check(w == nil, "R3.open", core.FuncName(ctor)+" radius-max-first", p.Pos(maxStore.Pos()), "the radius is the maximum before anything reads or narrows it", "the store can be used/read before its radius is initialised: "+p.PathString(w))
 		r.Check(isSizeKey(firstGet.Common().Args[1]), "R3.open", core.FuncName(ctor)+" reads-size-record", p.Pos(firstGet.Pos()), "reads the reserved size record", "the constructor does not read the size record")
 	}
 	// the usage counter is restored before anything that reads it runs (prune takes its starting
@@ -616,7 +647,7 @@ func c17(c *Ctx) {
 	r.Count("ctor_counter_readers", nreaders)
 	// radius replaced only under size > 0.95 capacity
 	core.Calls(ctor, func(ci ssa.CallInstruction) {
-		if core.CalleeID(ci) != atomicValStore || !m.isField(ci.Common().Args[0], m.radFld) || ci == maxStore {
+		if !isAtomicCell(core.CalleeID(ci), "Store") || !m.isField(ci.Common().Args[0], m.radFld) || ci == maxStore {
 			return
 		}
 		frac := -1.0
